@@ -18,6 +18,7 @@ import (
 	"bytes"
 	"context"
 	"encoding/json"
+	"errors"
 	"fmt"
 	"io"
 	"math/rand"
@@ -328,10 +329,22 @@ func launch(bin string, args ...string) (*proc, error) {
 		if up {
 			return p, nil
 		}
+		exited := false
+		select {
+		case <-p.done:
+			exited = true
+		default:
+		}
 		p.kill()
+		if msg := errb.String(); exited && (strings.Contains(msg, "invalid argument") || strings.Contains(msg, "unknown flag") || strings.Contains(msg, "Usage:")) {
+			// the command line was refused: trying another port does not help
+			return nil, fmt.Errorf("%w: %.300s", errRefused, strings.TrimSpace(msg))
+		}
 	}
 	return nil, fmt.Errorf("server did not come up")
 }
+
+var errRefused = errors.New("serve refused its command line")
 
 func (p *proc) kill() {
 	_ = p.cmd.Process.Kill()
@@ -421,6 +434,11 @@ func binaryTable(r *vh.Run, bin string, i int) {
 	wit["args"] = args
 	p, err := launch(bin, args...)
 	if err != nil {
+		if errors.Is(err, errRefused) {
+			// every flag and value here is documented usage (any text is a legal --warning)
+			r.Violation("flags:refused", fmt.Sprintf("serve does not start with documented flags: %v", err), wit)
+			return
+		}
 		r.Inconclusive("binary did not start: " + err.Error())
 		return
 	}
@@ -704,6 +722,9 @@ func rateTrial(r *vh.Run, i int) {
 	nsent := 0
 	send := func(addr string) (int, http.Header) {
 		rq := vh.Req{Method: "GET", URL: "/v2/", RemoteAddr: addr + ":4444"}
+		if strings.Contains(addr, ":") {
+			rq.RemoteAddr = "[" + addr + "]:4444"
+		}
 		if useXFF {
 			rq.RemoteAddr = "10.9.9.9:1"
 			v := addr + ", 10.1.1.1"
@@ -721,6 +742,11 @@ func rateTrial(r *vh.Run, i int) {
 		return rs.Status, rs.H
 	}
 	A, B := fmt.Sprintf("192.0.2.%d", 1+rng.Intn(200)), "198.51.100.7"
+	if i%4 == 1 {
+		// IPv6 clients of one network: the addresses differ in the last group only
+		A, B = fmt.Sprintf("2001:db8::%x", 1+rng.Intn(60000)), "2001:db8::ffff"
+	}
+	wit["address_a"], wit["address_b"] = A, B
 	n := L + 1 + rng.Intn(6)
 	t0 := time.Now()
 	served, refused, qualifying := 0, 0, 0
